@@ -212,6 +212,14 @@ def replay_cex(pid, name, desc, cex, logdir):
     rpath = os.path.join(rdir, name + ".json")
     if "routes" in cex:
         return replay_router(pid, name, desc, cex, logdir, rpath)
+    if "kind" in cex and "msgtype" in cex:
+        json.dump(dict(property=pid, obligation=name, claim=desc, counterexample=cex,
+                       how="re-run: /verif/check %s --only %s" % (pid, name)), open(rpath, "w"), indent=1)
+        return None, rpath, "counterexample is a DHCP message + policy outcome for handle_pkt (see file); no native replay driver for handler-level obligations"
+    if "layout" in cex or ("shape" in cex and "size" in cex):
+        json.dump(dict(property=pid, obligation=name, claim=desc, counterexample=cex,
+                       how="re-run: /verif/check %s --only %s" % (pid, name)), open(rpath, "w"), indent=1)
+        return None, rpath, "counterexample is a DNS message shape + size limit (see file); no native replay driver for codec obligations"
     if "acl_verdict" in cex:
         json.dump(dict(property=pid, obligation=name, claim=desc, counterexample=cex,
                        how="re-run: /verif/check %s --only %s" % (pid, name)), open(rpath, "w"), indent=1)
